@@ -88,7 +88,7 @@ CFG = dict(
                "kill-date checks of wait/listen/connectContextInner for ALL rules, instants, sleeps >= 1 ms, jitter bytes, in-range draws and ALL listen-loop scripts; "
                "the model is tied to /repo by running the real Work under an injected clock over all day masks x a (start,end) grid x edge instants, the real wait() "
                "over sleeps x jitter 0..255 x scripted draws (timer hooked, no real sleeping) and real client/server sessions over TCP loopback with a counting "
-               "connector and the injected clock stepped across the kill date, and evaluating the model on the same cases inside Coq.",
+               "connector and the injected clock stepped across the kill date (also: a Profile stored in s.swap, the real swap block of listen, settings read back), and evaluating the model on the same cases inside Coq.",
     level_note="Proof is about the model; the tie to the code is differential (strength = generator, distribution in the evidence). "
                "Trusted: Coq kernel+vm_compute, Go's time package in UTC, the harness and shims. No axioms.",
     partial="kill date: the listen loop is modelled with Connect as an instant of an injected clock; real timers/latency between the check and the dial are not modelled, "
